@@ -126,7 +126,7 @@ func c33Diff(a, b []string) string {
 func TestVerif_C33(t *testing.T) {
 	logrus.SetLevel(logrus.PanicLevel)
 	vk.Run(t, "C33", func(c *vk.Ctx) {
-		c.Rule("configurations = (table size m, backend set): m = config.BPFLUTSizeMaglev() for every BPFMaglevMaxEndpointsPerService in {1..8,100,3000} (quick) / 1..3000 (thorough); " +
+		c.Rule("configurations = (table size m, backend set): m = config.BPFLUTSizeMaglev() for every BPFMaglevMaxEndpointsPerService in {1..8,100,3000} (quick) / 1..3000 (thorough), and in both tiers every size reachable from 1..3000 is tested for primality (a composite size is reported with a single-backend table that cannot be generated); " +
 			"backend sets = all 63 non-empty subsets of 6 endpoints for m <= 600 (7 chosen subsets above) + sets of 16, 100 and m+3 generated endpoints; " +
 			"per configuration the real AddBackend/Generate is run for every insertion order (all permutations up to 4 backends, rotations + reversal above, + a sequence with duplicates and nil) " +
 			"and for the byte orders native / little-endian / big-endian; states = configurations, transitions = Generate runs; non-trivial = >=2 backends")
@@ -134,10 +134,12 @@ func TestVerif_C33(t *testing.T) {
 		c.Assume("int is 64 bits (amd64, arm64, ppc64le, s390x)")
 
 		// is the byte-order knob live?
-		probe := func(o binary.ByteOrder) int {
+		// (probed through the public API only, so the harness keeps building when internals are refactored)
+		probe := func(o binary.ByteOrder) string {
 			c33ByteOrder = o
-			v, _ := hashFromString("10.0.0.1:80", fnv.New32(), []byte{0})
-			return v
+			eps := []k8sp.Endpoint{c33EP(c33Base[0]), c33EP(c33Base[1]), c33EP(c33Base[2])}
+			t, _ := c33Table(503, eps, []int{0, 1, 2})
+			return strings.Join(t, ",")
 		}
 		live := probe(binary.LittleEndian) != probe(binary.BigEndian)
 		c33ByteOrder = binary.NativeEndian
@@ -185,6 +187,62 @@ func TestVerif_C33(t *testing.T) {
 			ms = append(ms, m)
 		}
 		sort.Ints(ms)
+
+		// EVERY table size the configuration range can yield (both tiers): the permutation scheme fills the table for
+		// every backend set only if the size is prime. A composite size is reported with a concrete witness: a single
+		// backend whose table cannot be generated.
+		reach := map[int]int{}
+		for n := 1; n <= 3000; n++ {
+			cfg.BPFMaglevMaxEndpointsPerService = n
+			m := cfg.BPFLUTSizeMaglev()
+			if _, ok := reach[m]; !ok {
+				reach[m] = n
+			}
+			if m < n {
+				c.Violation("C33:table-smaller-than-max-endpoints", map[string]any{"max_endpoints_per_service": n, "table_size": m})
+			}
+		}
+		c.Extra("reachable_table_sizes", len(reach))
+		composite := 0
+		for m, n := range reach {
+			f := 0
+			for d := 2; d*d <= m; d++ {
+				if m%d == 0 {
+					f = d
+					break
+				}
+			}
+			if f == 0 && m >= 2 {
+				continue
+			}
+			composite++
+			c.Outcome("composite table size reachable")
+			// look for a backend that cannot be placed
+			found := false
+			for i := 0; i < 4000 && !found; i++ {
+				name := fmt.Sprintf("10.0.%d.%d:%d", i/250, i%250+1, 8080)
+				one := []k8sp.Endpoint{c33EP(name)}
+				tbl, err := c33Table(m, one, []int{0})
+				bad := err != nil
+				for _, s := range tbl {
+					if s == "" {
+						bad = true
+					}
+				}
+				if bad {
+					found = true
+					d := map[string]any{"table_size": m, "smallest_factor": f, "max_endpoints_per_service": n, "backends": name}
+					if err != nil {
+						d["panic"] = err.Error()
+					}
+					c.Violation("C33:composite-table-size-cannot-be-filled", d)
+				}
+			}
+			if !found {
+				fmt.Printf("INFO C33 configured table size %d is composite (factor %d) but no failing backend was found among 4000 names\n", m, f)
+			}
+		}
+		c.Extra("composite_reachable_table_sizes", composite)
 		c.Extra("table_sizes", len(ms))
 		c.Extra("table_size_range", []int{ms[0], ms[len(ms)-1]})
 
